@@ -1,4 +1,5 @@
 from vf import Job
+from units.common_wake import wake_one_jobs, block_jobs, sleepq_jobs, spin_jobs
 TU = "c04_mutex.c"
 INV = ("(g_A >= 0 && (g_seat == 0 || g_seat == 1) && g_A < (1L << 61) - 2 * g_seat && (g_i_hold == 0 || g_i_hold == 1) && "
        "(g_env_holds == 0 || g_env_holds == 1) && (g_A & 1) == g_i_hold + g_env_holds)")
@@ -33,7 +34,7 @@ JOBS = [
       replace=ENV + ["myth_mutex_trylock_body/trylock_contract", "hr_gettime/gettime_contract", "myth_yield_ex_body/yield_contract"],
       fuc=["myth_mutex_timedlock_body", "myth_timespec_gt"], timeout=300),
   Job("c04.lemmas", TU, "h_lemmas", timeout=200),
-]
+] + wake_one_jobs("c04") + block_jobs("c04") + sleepq_jobs("c04") + spin_jobs("c04")
 META = {
  "level": "proof",
  "level_text": "Rely/guarantee contracts on the real mutex bodies: every own atomic step on the state word must be a legal protocol transition under arbitrary interference before every read and every CAS; retry loops closed by loop contracts (unbounded).",
